@@ -289,7 +289,7 @@ class RefSim:
             if units in ("rate", "probability"):
                 f = v * dt / T
             elif units == "duration":
-                f = dt / (v * T)
+                f = min(dt / (v * T), 1e100)  # any fraction above 1 empties the compartment
             elif units == "number":
                 amt = v * dt / T
                 if self.comps[l0["src"]]["kind"] == "src":
